@@ -3,6 +3,7 @@
 import json, subprocess
 
 HOOK_COMMITS = ["b575948"]
+FIX_COMMITS = ["45fedb3", "1dda9ee", "786139f", "b16e8cc"]
 
 CHECKS = {
  # id: (technique, level text, level note, design ref)
@@ -40,6 +41,30 @@ CHECKS = {
          "piece_board_for_step(i) equalled the recorded board for all 0<=i<=k on every visited state incl. full turn trees.",
          "Step-indexed queries are only made in the play phase, as the statement says.", "§6 C14"),
 }
+
+CHECKS.update({
+ "C04": ("runtime monitor: reference result function (official precedence) at every turn start; terminal-condition constructor workload",
+         "All 18 consistent combinations of the five conditions x side x every goal square were constructed and judged, plus mid-turn goal/elimination states and setup states.",
+         "Trusts the reference result function; immobilised positions come from rejection sampling against the model.", "§6 C04"),
+ "C09": ("runtime monitor: reference setup model over scripted and random placement orders",
+         "All 971 non-final count vectors per colour and 10^4-10^6 random orders: offered placements, target square, piece, side/phase switch and the fresh play start all as stated.",
+         "The 6.5e7 x 6.5e7 orders are sampled; the per-side state that decides the offered list (the count vector) is covered completely.", "§6 C09"),
+ "C11": ("runtime monitor: metamorphic lock-step twin games (engine vs engine on the transformed game)",
+         "Offered sets, rule-only sets, results and capture previews stayed images of each other at every state of 10^4-10^6 twin games under all three transforms, including repetition-heavy games.",
+         "No model involved; guards against a misreading shared by the model and the engine.", "§6 C11"),
+ "C15": ("runtime monitor: independent printer + re-parse on every visited state; catch_unwind fuzzing of the position parser in two build profiles",
+         "Round trip held on every visited setup/play state; 10^6-10^8 structured hostile diagrams and random strings returned Ok or Err without unwinding, with and without overflow checks.",
+         "The string space is sampled (structured mutation classes listed in the evidence).", "§6 C15"),
+ "C16": ("runtime monitor: reference grammar vs the four notation parsers, exhaustive short strings + value spaces, catch_unwind, two build profiles",
+         "All values round-trip; every string of length <=4 over a 36-symbol hostile alphabet and every printable-ASCII string of length <=3 is accepted iff the reference grammar accepts it, with the same value, and nothing panics.",
+         "Longer strings are sampled.", "§6 C16"),
+ "C17": ("runtime monitor: pairwise distinctness over the completely enumerated one-feature changes of each base state",
+         "For every base state the finite space of one-feature changes (64x13 contents, 12 kinds x free squares, side, 4 steps, 641 statuses) was enumerated completely and all hashes were pairwise distinct.",
+         "Base states are sampled (empty, opening array, random legal positions).", "§6 C17"),
+ "C19": ("runtime monitor: catch_unwind + panic-site hook around every listed public call on every visited state, overflow checks and debug assertions on",
+         "10^7-10^9 guarded engine calls over all play and setup families, turn trees and sweeps returned normally.",
+         "Only the calls the statement lists are made (no step-indexed query in setup, no placement_bit in play).", "§6 C19"),
+})
 
 NOT_YET = {}
 
